@@ -24,6 +24,14 @@ SIGMA_DOC = [
     " or ", " of ", "Example:", ":param *args:", ":param **kwargs:", "\t",
 ]
 
+# whole-line units of an argument section (Google and NumPy): entries with and without a description / a type, header-like lines without a body, blank lines,
+# continuation lines, a following section.  Every sequence of <= N units after the section header is one docstring.
+UNITS = {
+    "google": ("Summary.\n\nArgs:\n", ["  a:\n", "  b:\n", "  c (int): the c\n", "  d: the d\n", "  e (str):\n", "  Example:\n", "\n", "      continued here\n", "Returns:\n  int: the result\n", "Raises:\n"]),
+    "numpydoc": ("Summary.\n\nParameters\n----------\n", ["a\n", "b\n", "c : int\n    the c\n", "d\n    the d\n", "e : str\n", "Example\n", "\n", "    continued here\n", "Returns\n-------\nint\n    the result\n", "Raises\n------\n"]),
+}
+
+
 WS = [
     ("empty", ""), ("space", " "), ("nl", "\n"), ("indent_x", "  \n x"), ("lead_blank", "\nSummary."), ("trail", "Summary.   "), ("two_blank", "\n\n"),
     ("tab", "\t"), ("plain", "Summary."), ("ws_then_text", "   \nText\n   "), ("header_only", "Args:"), ("trunc", ":param"), ("nl_space_nl", "\n \n"),
@@ -38,7 +46,7 @@ PROSE = [
 
 
 def _bounds(tier):
-    return dict(n_tokens=3 if tier == "quick" else 4, doctrans_rounds=3, n_prose_tokens=2 if tier == "quick" else 3)
+    return dict(n_tokens=3 if tier == "quick" else 4, doctrans_rounds=3, n_prose_tokens=2 if tier == "quick" else 3, n_units=4 if tier == "quick" else 5)
 
 
 PROGRAMS = [
@@ -81,6 +89,10 @@ def cases(tier, seed):
     for i in range(len(SIGMA_DOC)):
         for j in range(len(SIGMA_DOC)):
             yield dict(kind="doc_block", prefix=[i, j], maxlen=n)
+    # (a') argument sections built from whole-line units, sharded by style and first unit
+    for style in UNITS:
+        for i in range(len(UNITS[style][1])):
+            yield dict(kind="unit_block", style=style, first=i, maxlen=b["n_units"])
     # (b) emitter on whitespace-alphabet interfaces
     kinds = A.sigma_int()
     for (hk, h), (dk, d) in itertools.product(WS, WS):
@@ -113,6 +125,12 @@ def budget(n):
 def _doc_strings(case):
     if "string" in case:
         yield case["string"]
+        return
+    if case["kind"] == "unit_block":
+        head, units = UNITS[case["style"]]
+        for n in range(0, case["maxlen"]):
+            for t in itertools.product(units, repeat=n):
+                yield head + units[case["first"]] + "".join(t)
         return
     pre = "".join(SIGMA_DOC[i] for i in case["prefix"])
     if not case["prefix"]:
@@ -157,7 +175,7 @@ def run(case):
             v["case"] = subcase
             viol.append(v)
 
-    if case["kind"] in ("doc_block", "doc_string"):
+    if case["kind"] in ("doc_block", "doc_string", "unit_block"):
         for s in _doc_strings(case):
             n += 1
             sub = dict(kind="doc_string", string=s)
@@ -248,13 +266,14 @@ def describe(tier):
     b = _bounds(tier)
     return dict(
         rule="(a) every docstring of <= {n_tokens} tokens over the {k}-token docstring alphabet through parse_docstring (emit_default_doc "
-        "True/False) and parse_docstring_into_header_args_footer; (b) {w}x{w} (header, description) pairs from the whitespace alphabet x 6 "
+        "True/False) and parse_docstring_into_header_args_footer; (a') every Google and NumPy argument section of <= {n_units} whole-line units over a {u}-unit alphabet (entries with and without "
+        "description or type, body-less header-like lines, blank and continuation lines, a following section) through the same calls; (b) {w}x{w} (header, description) pairs from the whitespace alphabet x 6 "
         "parameter kinds x 3 styles x indent 0..2 through docstring.emit (with and without an original docstring); (d) every parameter description of <= {n_prose_tokens} "
         "tokens over the {pr}-token prose alphabet (default announcements in recognised and unrecognised forms, type trigger words, quotes, brackets) x 2 parameter kinds "
         "through emit+re-parse of docstring (3 styles), class, function and argparse with emit_default_doc on/off; (c) {p} generated modules "
         "x 3 styles x annotations on/off through doctrans applied 1, 2, 3 times; each call under the step budget {c0}+{c1}*len(input) line "
-        "events; a case is one input string/interface/module".format(k=len(SIGMA_DOC), w=len(WS), p=len(PROGRAMS), c0=C0, c1=C1, pr=len(PROSE), **b),
-        bounds=dict(sigma_doc=SIGMA_DOC, prose_alphabet=PROSE, whitespace_alphabet=[w[1] for w in WS], programs=[p[0] for p in PROGRAMS], c0=C0, c1=C1, **b),
+        "events; a case is one input string/interface/module".format(k=len(SIGMA_DOC), w=len(WS), p=len(PROGRAMS), c0=C0, c1=C1, pr=len(PROSE), u=len(UNITS["google"][1]), **b),
+        bounds=dict(units=UNITS, sigma_doc=SIGMA_DOC, prose_alphabet=PROSE, whitespace_alphabet=[w[1] for w in WS], programs=[p[0] for p in PROGRAMS], c0=C0, c1=C1, **b),
         exhaustive=True,
         assumptions=["termination is measured in line events of the cdd package (deterministic); loops inside C code (re, str methods) are not counted",
                      "'proportional' is decided against the fixed envelope C0 + C1*n; measured maxima are reported as max_steps / max_steps_per_char_x100"],
